@@ -1,176 +1,13 @@
-import SSV.Proofs.RelayLifeInv4Defs
+import SSV.Proofs.RelayLifeInv4a_p0
+import SSV.Proofs.RelayLifeInv4a_p1
+import SSV.Proofs.RelayLifeInv4a_p2
+import SSV.Proofs.RelayLifeInv4a_p3
+import SSV.Proofs.RelayLifeInv4a_p4
+import SSV.Proofs.RelayLifeInv4a_p5
+import SSV.Proofs.RelayLifeInv4a_p6
+import SSV.Proofs.RelayLifeInv4a_p7
+import SSV.Proofs.RelayLifeInv4a_p8
 namespace SSV.RelayLife
 variable (cfg : Cfg)
-
-theorem inv4_arrive (s s' : State) (c : Nat) (h1 : Inv1 s) (ha : Inv3a s) (hd : Inv3d s) (hI : Inv4 cfg s) (h : step cfg s (.arrive c) = some s') : Inv4 cfg s' := by
-  have a7 := h1.closed
-  clear h1
-  have u2 := ha.u2
-  have u3 := ha.u3
-  clear ha
-  obtain ⟨u1⟩ := hd
-  obtain ⟨s1,s2,s3,s4,s5,u4,u6⟩ := hI
-  simp only [step] at h
-  (repeat' split at h) <;> close_case4
-
-theorem inv4_rLock (s s' : State)  (h1 : Inv1 s) (ha : Inv3a s) (hd : Inv3d s) (hI : Inv4 cfg s) (h : step cfg s (.rLock ) = some s') : Inv4 cfg s' := by
-  have a7 := h1.closed
-  clear h1
-  have u2 := ha.u2
-  have u3 := ha.u3
-  clear ha
-  obtain ⟨u1⟩ := hd
-  obtain ⟨s1,s2,s3,s4,s5,u4,u6⟩ := hI
-  simp only [step] at h
-  (repeat' split at h) <;> close_case4
-
-set_option maxHeartbeats 1600000 in
-theorem inv4_rProc (s s' : State) (ok : Bool) (h1 : Inv1 s) (ha : Inv3a s) (hd : Inv3d s) (hI : Inv4 cfg s) (h : step cfg s (.rProc ok) = some s') : Inv4 cfg s' := by
-  have a7 := h1.closed
-  clear h1
-  have u2 := ha.u2
-  have u3 := ha.u3
-  clear ha
-  obtain ⟨u1⟩ := hd
-  obtain ⟨s1,s2,s3,s4,s5,u4,u6⟩ := hI
-  simp only [step] at h
-  (repeat' split at h) <;> close_case4
-
-theorem inv4_rMore (s s' : State) (c : Nat) (h1 : Inv1 s) (ha : Inv3a s) (hd : Inv3d s) (hI : Inv4 cfg s) (h : step cfg s (.rMore c) = some s') : Inv4 cfg s' := by
-  have a7 := h1.closed
-  clear h1
-  have u2 := ha.u2
-  have u3 := ha.u3
-  clear ha
-  obtain ⟨u1⟩ := hd
-  obtain ⟨s1,s2,s3,s4,s5,u4,u6⟩ := hI
-  simp only [step] at h
-  (repeat' split at h) <;> close_case4
-
-theorem inv4_rUnlock (s s' : State)  (h1 : Inv1 s) (ha : Inv3a s) (hd : Inv3d s) (hI : Inv4 cfg s) (h : step cfg s (.rUnlock ) = some s') : Inv4 cfg s' := by
-  have a7 := h1.closed
-  clear h1
-  have u2 := ha.u2
-  have u3 := ha.u3
-  clear ha
-  obtain ⟨u1⟩ := hd
-  obtain ⟨s1,s2,s3,s4,s5,u4,u6⟩ := hI
-  simp only [step] at h
-  (repeat' split at h) <;> close_case4
-
-theorem inv4_rExit (s s' : State)  (h1 : Inv1 s) (ha : Inv3a s) (hd : Inv3d s) (hI : Inv4 cfg s) (h : step cfg s (.rExit ) = some s') : Inv4 cfg s' := by
-  have a7 := h1.closed
-  clear h1
-  have u2 := ha.u2
-  have u3 := ha.u3
-  clear ha
-  obtain ⟨u1⟩ := hd
-  obtain ⟨s1,s2,s3,s4,s5,u4,u6⟩ := hI
-  simp only [step] at h
-  (repeat' split at h) <;> close_case4
-
-set_option maxHeartbeats 1600000 in
-theorem inv4_dTimeout (s s' : State) (i : Nat) (h1 : Inv1 s) (ha : Inv3a s) (hd : Inv3d s) (hI : Inv4 cfg s) (h : step cfg s (.dTimeout i) = some s') : Inv4 cfg s' := by
-  have a7 := h1.closed
-  clear h1
-  have u2 := ha.u2
-  have u3 := ha.u3
-  clear ha
-  obtain ⟨u1⟩ := hd
-  obtain ⟨s1,s2,s3,s4,s5,u4,u6⟩ := hI
-  simp only [step] at h
-  (repeat' split at h) <;> close_case4
-
-theorem inv4_dPacket (s s' : State) (i : Nat) (h1 : Inv1 s) (ha : Inv3a s) (hd : Inv3d s) (hI : Inv4 cfg s) (h : step cfg s (.dPacket i) = some s') : Inv4 cfg s' := by
-  have a7 := h1.closed
-  clear h1
-  have u2 := ha.u2
-  have u3 := ha.u3
-  clear ha
-  obtain ⟨u1⟩ := hd
-  obtain ⟨s1,s2,s3,s4,s5,u4,u6⟩ := hI
-  simp only [step] at h
-  (repeat' split at h) <;> close_case4
-
-theorem inv4_dSend (s s' : State) (i : Nat) (h1 : Inv1 s) (ha : Inv3a s) (hd : Inv3d s) (hI : Inv4 cfg s) (h : step cfg s (.dSend i) = some s') : Inv4 cfg s' := by
-  have a7 := h1.closed
-  clear h1
-  have u2 := ha.u2
-  have u3 := ha.u3
-  clear ha
-  obtain ⟨u1⟩ := hd
-  obtain ⟨s1,s2,s3,s4,s5,u4,u6⟩ := hI
-  simp only [step] at h
-  (repeat' split at h) <;> close_case4
-
-theorem inv4_uFail (s s' : State) (i : Nat) (h1 : Inv1 s) (ha : Inv3a s) (hd : Inv3d s) (hI : Inv4 cfg s) (h : step cfg s (.uFail i) = some s') : Inv4 cfg s' := by
-  have a7 := h1.closed
-  clear h1
-  have u2 := ha.u2
-  have u3 := ha.u3
-  clear ha
-  obtain ⟨u1⟩ := hd
-  obtain ⟨s1,s2,s3,s4,s5,u4,u6⟩ := hI
-  simp only [step] at h
-  (repeat' split at h) <;> close_case4
-
-set_option maxHeartbeats 1600000 in
-theorem inv4_cleanup (s s' : State) (i : Nat) (h1 : Inv1 s) (ha : Inv3a s) (hd : Inv3d s) (hI : Inv4 cfg s) (h : step cfg s (.cleanup i) = some s') : Inv4 cfg s' := by
-  have a7 := h1.closed
-  clear h1
-  have u2 := ha.u2
-  have u3 := ha.u3
-  clear ha
-  obtain ⟨u1⟩ := hd
-  obtain ⟨s1,s2,s3,s4,s5,u4,u6⟩ := hI
-  simp only [step] at h
-  (repeat' split at h) <;> close_case4
-
-theorem inv4_uRecv (s s' : State) (i : Nat) (k : Nat) (h1 : Inv1 s) (ha : Inv3a s) (hd : Inv3d s) (hI : Inv4 cfg s) (h : step cfg s (.uRecv i k) = some s') : Inv4 cfg s' := by
-  have a7 := h1.closed
-  clear h1
-  have u2 := ha.u2
-  have u3 := ha.u3
-  clear ha
-  obtain ⟨u1⟩ := hd
-  obtain ⟨s1,s2,s3,s4,s5,u4,u6⟩ := hI
-  simp only [step] at h
-  (repeat' split at h) <;> close_case4
-
-set_option maxHeartbeats 1600000 in
-theorem inv4_stopCall (s s' : State)  (h1 : Inv1 s) (ha : Inv3a s) (hd : Inv3d s) (hI : Inv4 cfg s) (h : step cfg s (.stopCall ) = some s') : Inv4 cfg s' := by
-  have a7 := h1.closed
-  clear h1
-  have u2 := ha.u2
-  have u3 := ha.u3
-  clear ha
-  obtain ⟨u1⟩ := hd
-  obtain ⟨s1,s2,s3,s4,s5,u4,u6⟩ := hI
-  simp only [step] at h
-  (repeat' split at h) <;> close_case4
-
-set_option maxHeartbeats 1600000 in
-theorem inv4_stop (s s' : State)  (h1 : Inv1 s) (ha : Inv3a s) (hd : Inv3d s) (hI : Inv4 cfg s) (h : step cfg s (.stop ) = some s') : Inv4 cfg s' := by
-  have a7 := h1.closed
-  clear h1
-  have u2 := ha.u2
-  have u3 := ha.u3
-  clear ha
-  obtain ⟨u1⟩ := hd
-  obtain ⟨s1,s2,s3,s4,s5,u4,u6⟩ := hI
-  simp only [step] at h
-  (repeat' split at h) <;> close_case4
-
-set_option maxHeartbeats 1600000 in
-theorem inv4_stopVisit (s s' : State) (i : Nat) (h1 : Inv1 s) (ha : Inv3a s) (hd : Inv3d s) (hI : Inv4 cfg s) (h : step cfg s (.stopVisit i) = some s') : Inv4 cfg s' := by
-  have a7 := h1.closed
-  clear h1
-  have u2 := ha.u2
-  have u3 := ha.u3
-  clear ha
-  obtain ⟨u1⟩ := hd
-  obtain ⟨s1,s2,s3,s4,s5,u4,u6⟩ := hI
-  simp only [step] at h
-  (repeat' split at h) <;> close_case4
 
 end SSV.RelayLife
